@@ -66,6 +66,9 @@ Gc(S) == LET gone == {i \in Ids(S) : S.ino[i].nlink = 0 /\ ~Referenced(S, i)} IN
 (* ---------------- name kinds ---------------- *)
 \* k \in {"plain","dot","dotdot","slash","empty","long"}: the model never inspects characters;
 \* traces carry the kind next to the string, the model-checking configurations define it.
+\* a name under something that is not a directory: ENOTDIR, except that the empty name is refused first (ENOENT)
+\* and the order of the length check is not pinned
+NotDirErr(k) == IF k \in {"empty", "long"} THEN AnyErr ELSE {"ENOTDIR"}
 NameErr(S, k) == IF k = "empty" THEN Fail(S, {"ENOENT"})
                  ELSE IF k = "long" THEN Fail(S, {"ENAMETOOLONG"})
                  ELSE Fail(S, AnyErr)
@@ -73,7 +76,7 @@ NameErr(S, k) == IF k = "empty" THEN Fail(S, {"ENOENT"})
 (* ---------------- lookup: fstatat/openat(O_PATH|O_NOFOLLOW) of one component ---------------- *)
 Lookup(S, d, name, k) ==
   IF d \notin Ids(S) THEN Fail(S, {"EBADF"})
-  ELSE IF ~IsDir(S, d) THEN Fail(S, {"ENOTDIR"})
+  ELSE IF ~IsDir(S, d) THEN Fail(S, NotDirErr(k))
   ELSE IF k = "dot" THEN Succ(S, [id |-> d])
   ELSE IF k = "dotdot" THEN Succ(S, [id |-> S.ino[d].par])
   ELSE IF k # "plain" THEN NameErr(S, k)
@@ -91,7 +94,7 @@ NewInode(t, c, mode, rdev, tgt, tsize, par) ==
 \* common precondition of mkdirat / mknodat / symlinkat / openat(O_CREAT|O_EXCL) / linkat / rename target
 CreateErr(S, c, d, name, k) ==
   IF d \notin Ids(S) THEN {"EBADF"}
-  ELSE IF ~IsDir(S, d) THEN {"ENOTDIR"}
+  ELSE IF ~IsDir(S, d) THEN (IF k \in {"empty", "long"} THEN {"EGEN"} ELSE {"ENOTDIR"})
   ELSE IF k \in {"dot", "dotdot"} THEN {"EEXIST", "EINVAL", "ENOTEMPTY", "EBUSY", "EISDIR", "EPERM"}   \* gated by the A level anyway
   ELSE IF k = "empty" THEN {"ENOENT"}
   ELSE IF k = "long" THEN {"ENAMETOOLONG"}
@@ -121,7 +124,7 @@ Symlink(S, c, d, name, k, tgt, tsize, nid) ==
 DropName(S, d, name) == [S.dent EXCEPT ![d] = Restrict(@, DOMAIN @ \ {name})]
 Unlink(S, d, name, k) ==
   IF d \notin Ids(S) THEN Fail(S, {"EBADF"})
-  ELSE IF ~IsDir(S, d) THEN Fail(S, {"ENOTDIR"})
+  ELSE IF ~IsDir(S, d) THEN Fail(S, NotDirErr(k))
   ELSE IF k # "plain" THEN (IF k \in {"dot", "dotdot"} THEN Fail(S, AnyErr) ELSE NameErr(S, k))
   ELSE IF name \notin Names(S, d) THEN Fail(S, {"ENOENT"})
   ELSE LET x == S.dent[d][name] IN
@@ -129,7 +132,7 @@ Unlink(S, d, name, k) ==
        ELSE Succ(Gc([S EXCEPT !.dent = DropName(S, d, name), !.ino[x].nlink = @ - 1]), NoRet)
 Rmdir(S, d, name, k) ==
   IF d \notin Ids(S) THEN Fail(S, {"EBADF"})
-  ELSE IF ~IsDir(S, d) THEN Fail(S, {"ENOTDIR"})
+  ELSE IF ~IsDir(S, d) THEN Fail(S, NotDirErr(k))
   ELSE IF k # "plain" THEN (IF k \in {"dot", "dotdot"} THEN Fail(S, AnyErr) ELSE NameErr(S, k))
   ELSE IF name \notin Names(S, d) THEN Fail(S, {"ENOENT"})
   ELSE LET x == S.dent[d][name] IN
@@ -141,7 +144,7 @@ Rmdir(S, d, name, k) ==
 Link(S, i, d, name, k) ==
   IF i \notin Ids(S) THEN Fail(S, {"EBADF"})
   ELSE LET e == CreateErr(S, Root0, d, name, k) IN
-  IF e \in {{"EBADF"}, {"ENOTDIR"}} THEN Fail(S, e)
+  IF e \in {{"EBADF"}, {"ENOTDIR"}, {"EGEN"}} THEN Fail(S, ErrSet(e))
   ELSE IF k = "plain" /\ name \in Names(S, d) THEN Fail(S, {"EEXIST"})
   ELSE IF e # {"OK"} THEN Fail(S, ErrSet(e))
   ELSE IF IsDir(S, i) THEN Fail(S, {"EPERM"})
@@ -157,6 +160,7 @@ MaxDepth == 6
 RenFlags == {"", "NOREPLACE", "EXCHANGE"}
 Rename(S, od, on, ok_, nd, nn, nk, fl) ==
   IF od \notin Ids(S) \/ nd \notin Ids(S) THEN Fail(S, {"EBADF"})
+  ELSE IF (~IsDir(S, od) \/ ~IsDir(S, nd)) /\ (ok_ # "plain" \/ nk # "plain") THEN Fail(S, AnyErr)
   ELSE IF ~IsDir(S, od) \/ ~IsDir(S, nd) THEN Fail(S, {"ENOTDIR"})
   ELSE IF fl \notin RenFlags THEN Fail(S, {"EINVAL"})
   ELSE IF ok_ # "plain" \/ nk # "plain" THEN Fail(S, AnyErr)
